@@ -54,6 +54,16 @@ func (w *world) isTempName(p string) bool {
 	return inList(filepath.Dir(p), w.tempDirs) && strings.HasPrefix(filepath.Base(p), w.tempPrefix) && p != w.dest
 }
 
+// isTemporary: p is a temporary entry in a temporary location (see inspect).
+func (w *world) isTemporary(p string) bool {
+	for _, ft := range w.freeTrees {
+		if under(p, ft) {
+			return true
+		}
+	}
+	return w.isTempName(p) || (w.destKind == "symlink" && filepath.Base(p) == "tmp.symlink" && w.isTempName(filepath.Dir(p)))
+}
+
 // judgeTree compares the unpacked directory with the archive's content.
 func (w *world) judgeTree() (string, string) {
 	want := map[string][]byte{}
@@ -206,6 +216,10 @@ func (w *world) inspect() (*stateReport, error) {
 		}
 		e := post[p]
 		pe, was := pre[p]
+		if was && w.isTemporary(p) {
+			rep.Temps = append(rep.Temps, w.rel(p)) // a left-over temporary of an earlier, interrupted run
+			continue
+		}
 		if was {
 			if e.Kind != pe.Kind || e.Sum != pe.Sum || e.Link != pe.Link || (e.Kind != "d" && e.Mode != pe.Mode) {
 				add("input-changed", "other", "%s changed during the operation: %+v -> %+v", w.rel(p), pe, e)
@@ -233,7 +247,7 @@ func (w *world) inspect() (*stateReport, error) {
 		}
 	}
 	for _, p := range sortedKeys(pre) {
-		if _, ok := post[p]; !ok && p != w.dest && p != w.sigDest {
+		if _, ok := post[p]; !ok && p != w.dest && p != w.sigDest && !w.isTemporary(p) && !(w.destKind == "dir" && under(p, w.dest)) {
 			add("input-changed", "other", "%s disappeared during the operation", w.rel(p))
 		}
 	}
